@@ -565,6 +565,16 @@ theorem c02_aggregate_refines_c04 (i : Inst) (q : Queues) (m : Msg) :
       simp [hf', toC04Cfg]
       funext t; by_cases e : t = m.ty <;> simp [e]
 
+/-- the documented boundary for trees that repeat servers (property C12's known finding; node ids derive from
+the server's key): a child hosted by the server of the receiver's parent has the parent's node id, `aggregate`
+tells "from the parent" by that id, so the child's message of an aggregated type is released alone and the
+batch of its siblings stays incomplete. The sender check itself is unaffected (the node is a member hosted by
+the connection's peer). -/
+theorem c02_child_with_parents_id_bypasses :
+    run { nodes := [⟨10, 0⟩, ⟨11, 1⟩, ⟨12, 2⟩, ⟨10, 0⟩], parent := some 10, nChildren := 2, agg := fun t => t == 1 }
+      (fun _ => []) [⟨1, some 12, some 2, 7, none⟩, ⟨1, some 10, some 0, 8, none⟩]
+    = [[(⟨10, 0⟩, ⟨1, 10, some 0, 8⟩)]] := by decide
+
 /-! ### the code regions the model stands for
 Regenerated from /repo's source on every run (`harness/cmd/astfacts` → `OnetVerif/Shapes.lean`): the
 calls that matter for synchronisation and data flow, the lock regions and (for decision logic) the
